@@ -147,6 +147,9 @@ def run_history(case):
             d[b"x-top"] = {b"b": 1, b"a": [b"x", 2 ** 40]}
             d[b"nodes"] = [[b"n.example", 6881]]
             d[b"info"][b"x-info"] = b"kept"
+            # written by an older release of this tool / by a tool with a similar stamp, long ago
+            d[b"created by"] = (b"torrentfile_v0.8.11", b"torrentfile_v0.0.1-dev", b"torrentfile-rs 2.1")[(case["id"] // 4) % 3]
+            d[b"creation date"] = 1500000000
             d[b"info"][b"aaa-first"] = 7
             # a non-ASCII text key next to a key that is not valid UTF-8, in one dictionary (top level and info)
             for dd in (d, d[b"info"]):
